@@ -274,6 +274,11 @@ package utils
 // i.e. not with the `bool` modifier (KNOWN FINDING: it does - the existing tests pin `0 > bool 0` as dead code).
 //@ spec func isCmp(op promParser.ItemType) bool = op == promParser.EQLC || op == promParser.NEQ || op == promParser.LTE || op == promParser.LSS || op == promParser.GTE || op == promParser.GTR
 //@ spec func vmSep(s Source, vm *promParser.VectorMatching) bool = sepS(s, vm.MatchingLabels) && sepS(s, vm.Include)
+// Static comparison folding: `a <cmp> b` with both operands always returning a known number filters everything out
+// exactly when the comparison of the two numbers is false (Prometheus' own comparison of the samples, no `bool`).
+//@ spec func cmpHolds(op promParser.ItemType, a float64, b float64) bool = op == promParser.EQLC ? a == b : (op == promParser.NEQ ? a != b : (op == promParser.LTE ? a <= b : (op == promParser.LSS ? a < b : (op == promParser.GTE ? a >= b : (op == promParser.GTR ? a > b : true)))))
+//@ func calculateStaticReturn [C12]
+//@   ensures result1 ==> isDead || (isCmp(op) && !cmpHolds(op, ls.ReturnedNumber, rs.ReturnedNumber))
 //@ func parseBinOps [C04,C12]
 //@   option elemlinks split
 //@   requires n != nil
@@ -291,6 +296,13 @@ package utils
 //@   after call walkNode#10 set r10 = result
 //@   at call calculateStaticReturn#1 assert [C12] !(n.ReturnBool && isCmp(n.Op))
 //@   at call calculateStaticReturn#2 assert [C12] !(n.ReturnBool && isCmp(n.Op))
+// the folded comparison is the one the query makes: same verdict as `ls <n.Op> rs` on the two known numbers
+//@   at call calculateStaticReturn#1 assert [C12] cmpHolds(arg3, arg1.ReturnedNumber, arg2.ReturnedNumber) == cmpHolds(n.Op, ls.ReturnedNumber, rs.ReturnedNumber)
+//@   at call calculateStaticReturn#1 assert [C12] isCmp(arg3) == isCmp(n.Op) && arg4 == ls.IsDead
+//@   at call calculateStaticReturn#1 assert [C12] ls.AlwaysReturns && rs.AlwaysReturns && ls.KnownReturn && rs.KnownReturn
+//@   at call calculateStaticReturn#2 assert [C12] cmpHolds(arg3, arg1.ReturnedNumber, arg2.ReturnedNumber) == cmpHolds(n.Op, s.ReturnedNumber, rs.ReturnedNumber)
+//@   at call calculateStaticReturn#2 assert [C12] isCmp(arg3) == isCmp(n.Op) && arg4 == s.IsDead
+//@   at call calculateStaticReturn#2 assert [C12] s.AlwaysReturns && rs.AlwaysReturns && s.KnownReturn && rs.KnownReturn
 //@   at call canJoin#1 assert [C12] sameLists(arg0, r4[iter3-1]) && arg0.FixedLabels == r4[iter3-1].FixedLabels
 //@   at call canJoin#2 assert [C12] sameLists(arg0, r6[iter6-1]) && arg0.FixedLabels == r6[iter6-1].FixedLabels
 //@   at call canJoin#3 assert [C12] sameLists(arg0, r8[iter8-1]) && arg0.FixedLabels == r8[iter8-1].FixedLabels
